@@ -16,6 +16,20 @@ ARITH = {"Add": ast.Add, "Sub": ast.Sub, "Mul": ast.Mult, "Div": ast.FloorDiv, "
          "AddUnchecked": ast.Add, "SubUnchecked": ast.Sub, "MulUnchecked": ast.Mult}
 
 
+def _strip_generics(s: str) -> str:
+    out, depth = [], 0
+    for i, ch in enumerate(s):
+        if ch == "<" and (i == 0 or s[i - 1] != " "):
+            depth += 1
+            continue
+        if ch == ">" and depth and (i == 0 or s[i - 1] != "-"):
+            depth -= 1
+            continue
+        if depth == 0:
+            out.append(ch)
+    return "".join(out).replace("::::", "::")
+
+
 def short_callee(c: str) -> str:
     c = re.sub(r"<[^<>]*>", "", c)
     c = re.sub(r"<[^<>]*>", "", c)
@@ -116,7 +130,11 @@ class Sym:
                 key = "FIELD:" + dest
                 st[key] = self._rvalue(s, p)
             return
-        st[dest] = self._rvalue(s, p)
+        v = self._rvalue(s, p)
+        nm = self.names.get(dest)
+        if nm and s.op == "use" and re.match(r"^\(\(_\d+ as \w+\)\.\d+:", s.args[0]):
+            v = ast.Name(self.name_of(dest), ast.Load())    # pattern-bound variable (`Some(i)`): name it
+        st[dest] = v
 
     def _rvalue(self, s: Stmt, p: SymPath) -> ast.expr:
         st = p.state
@@ -153,6 +171,11 @@ class Sym:
             if m and "," in rv and ":" not in rv.split(",")[0]:
                 from .mirfront import _split_args
                 return ast.Tuple([self.val(x, st) for x in _split_args(m.group(1))], ast.Load())
+            flat = _strip_generics(rv)
+            m = re.match(r"^([\w:]+)::(\w+)\((.*)\)$", flat)
+            if m:
+                from .mirfront import _split_args
+                return ast.Call(ast.Name(m.group(2), ast.Load()), [self.val(x, st) for x in _split_args(m.group(3))], [])
             m = re.match(r"^(\w[\w:]*) \{ (.*) \}$", rv)
             if m:
                 from .mirfront import _split_args
